@@ -322,7 +322,7 @@ func C05(c *wk.Ctx) {
 		c.Emit(u)
 		return
 	}
-	w := newParseWork(c, 150, 12000)
+	w := newParseWork(c, 150, 30000)
 	units := w.exhUnits()
 	total := len(units) + w.nSeed
 	if c.Mode == "plan" {
